@@ -61,6 +61,7 @@ struct PerThread
 {
   std::atomic<int> last_site{ 0 };
   long counts[64] = { 0 };
+  long cache_hits = 0; // PMCACHE_LOOKUP events with a == 1
   std::vector<std::pair<long, long>> dist_log; // (a,b) of DIST_VIEWGRAM
   uint64_t rng = 0x1234567;
   int budget = 0;
@@ -98,6 +99,7 @@ reset(uint64_t seed, bool do_perturb, int nthreads)
     {
       T[i].last_site = 0;
       std::fill(std::begin(T[i].counts), std::end(T[i].counts), 0L);
+      T[i].cache_hits = 0;
       T[i].dist_log.clear();
       T[i].rng = vf::mix3(seed, static_cast<uint64_t>(i), 99) | 1;
       T[i].budget = 40;
@@ -191,6 +193,10 @@ stir_verif_point(int site, const void* obj, long a, long b)
       break;
     case STIR_VERIF_LAZY_AFTER_FLAG_WRITE:
       maybe_delay(p, t, 2);
+      break;
+    case STIR_VERIF_PMCACHE_LOOKUP:
+      if (a == 1)
+        ++p.cache_hits;
       break;
     case STIR_VERIF_PMCACHE_BEFORE_LOCK:
       if (p.counts[site] % 64 == 1)
@@ -612,7 +618,12 @@ w_cache(Ctx& ctx)
       disarm();
       omp_set_num_threads(1);
       ctx.count("cache_runs");
-      ctx.count("cache_hits", 0);
+      {
+        long h = 0;
+        for (auto& t : hk::T)
+          h += t.cache_hits;
+        ctx.count("cache_hits", h);
+      }
       ctx.count("cache_inserts", hook_count(STIR_VERIF_PMCACHE_INSERTED));
       ctx.count("cache_lookups", hook_count(STIR_VERIF_PMCACHE_LOOKUP));
       ctx.sub_eval(hk::signature.load(), true);
